@@ -251,6 +251,9 @@ macro_rules! impl_build {
                     $krate::errors::Error::Checksum { expected, found } => {
                         Outcome::ErrChecksum { expected, found }
                     }
+                    // (a variant added later is an error value like the others)
+                    #[allow(unreachable_patterns)]
+                    other => Outcome::ErrNmea(format!("{:?}", other)),
                 }
             }
 
